@@ -1057,3 +1057,129 @@ def gen_typed(seed, idbase=0, kt="u64", nb=("BucketsSize", 1), nops=250, name="t
     s.op("decode", dir="d", name="m", native=True)
     s.op("child_dump", dir="d", name="m", kt=kt)
     return s
+
+
+GOLDEN_KINDS = ["small", "large", "many"]
+
+
+def gen_golden(kind, kt, idbase=0):
+    """the histories whose files, written by the PINNED release, are committed under /verif/golden.
+    Deterministic; chosen not to trigger the defects D5/D6 of the pinned tree.  Returns (script, contents)"""
+    rng = random.Random("golden-%s-%s" % (kind, kt))
+    s = Script(idbase, design=False, name="golden_%s_%s" % (kt, kind))
+    mem = {}
+    if kind == "small":
+        nb, nkeys = ["Capacity", 4], 30
+        vl = [0, 1, 3, 14, 15, 20, 100, 126, 127, 400]
+    elif kind == "large":
+        nb, nkeys = ["BucketsSize", 64], 24
+        vl = [1100, 2000, 3000, 5000, 1017, 1021]
+    else:
+        nb, nkeys = ["Capacity", 1000], 300
+        vl = [0, 3, 8, 20]
+    if kt in ("u64", "i64", "vu64"):
+        keys = typed_keys(s, rng, kt, nkeys)
+    else:
+        keys = []
+        lens = [1, 4, 8, 10, 11, 16, 30, 100, 0] if kind != "large" else [10, 100, 200, 300]
+        while len(keys) < nkeys:
+            k = s.key(rng.choice(lens))
+            if k:
+                keys.append(k)
+    vids = [s.newval(x) for x in vl]
+    s.op("open_db", db=0, dir="g")
+    s.op("map", h=1, db=0, name="m", kt=kt, params={"buckets": nb})
+
+    def put(k, v):
+        s.op("put", h=1, k=k, v=v)
+        mem[k] = v
+
+    def dele(k):
+        s.op("del", h=1, k=k)
+        mem.pop(k, None)
+
+    for k in keys:
+        put(k, rng.choice(vids))
+    if kind == "small":
+        for k in rng.sample(keys, 10):
+            dele(k)
+        for k in rng.sample(keys, 8):
+            put(k, rng.choice(vids[:4]))             # small values only: re-use of freed slots
+        for k in rng.sample(sorted(mem), 5):
+            put(k, mem[k])                           # overwrite with the same value (in place)
+        for k in rng.sample(sorted(mem), 4):
+            dele(k)
+    elif kind == "large":
+        small = [s.newval(x) for x in (3, 20, 100)]
+        for k in rng.sample(keys, 8):
+            dele(k)                                  # large slots go to the shared free list and stay there
+        for k in rng.sample(keys, 6):
+            if k not in mem:
+                put(k, rng.choice(small))
+    else:
+        for k in rng.sample(keys, 100):
+            dele(k)
+        for k in rng.sample(keys, 40):
+            if k not in mem:
+                put(k, rng.choice(vids))
+    s.op("drop_all")
+    return s, mem
+
+
+def gen_golden_check(seed, golden_dir, expected, idbase_unused=0, nops=120, name="golden"):
+    """C12: install a committed image written by the pinned release, open it with the current build,
+    compare with the committed contents, then drive it further."""
+    rng = random.Random(seed)
+    s = Script(0, design=True, name=name)
+    s.ops.append(expected["tables"])                  # same ids -> same bytes as at generation time
+    kt = expected["kt"]
+    content = expected["content"]
+    keys = [k["id"] for k in expected["tables"]["keys"]]
+    vals = [v["id"] for v in expected["tables"]["vals"]]
+    s.idbase = max(keys + vals) + 1000
+    s.op("install", src=golden_dir, dir="g")
+    s.op("load", m="g/m", dir="g", kt=kt, n=expected["n"], content=content)
+    s.op("digest", dir="g", name="m", tag="golden_before")
+    s.op("decode", dir="g", name="m", native=True)
+    s.op("child_dump", dir="g", name="m", kt=kt, **{"as": "C12.content"})
+    s.op("digest", dir="g", name="m", tag="golden_after")
+    s.op("note", conj="C15.bytes", same=["golden_before", "golden_after"])
+    s.op("open_db", db=0, dir="g")
+    s.op("map", h=1, db=0, name="m", kt=kt, **{"as": "C12.content"})
+    s.op("dump", h=1, **{"as": "C12.content"})
+    s.op("iter", h=1, flavour="iter")
+    dec = dict(dir="g", name="m", flush_h=1, native=True)
+    s.op("decode", **dec)
+    small = [v["id"] for v in expected["tables"]["vals"] if v["len"] < 900] or vals
+    newv = [s.newval(x) for x in (5, 50, 1200)]
+    for i in range(nops):
+        r = rng.random()
+        k = rng.choice(keys)
+        if r < 0.45:
+            s.op("put", h=1, k=k, v=rng.choice(small + newv))
+        elif r < 0.70:
+            s.op("del", h=1, k=k)
+        elif r < 0.90:
+            s.op("get", h=1, k=k)
+        else:
+            s.op("hash", k=k)
+        if i % 10 == 9:
+            s.op("decode", **dec)
+    s.op("dump", h=1)
+    s.op("new_process")
+    s.op("decode", dir="g", name="m", native=True)
+    s.op("child_dump", dir="g", name="m", kt=kt, **{"as": "C12.content"})
+    return s
+
+
+def gen_golden_rewrite(kind, kt, golden_dir):
+    """C12 (converse): the history that produced a committed image, executed by the current build,
+    gives byte-identical files (the script is stored next to the image)"""
+    s = Script(0, design=False, name="rewrite_%s_%s" % (kt, kind))
+    s.ops = [json.loads(l) for l in open(golden_dir + "/script.ndjson") if l.strip()]
+    s.op("install", src=golden_dir, dir="ref")
+    s.op("digest", dir="g", name="m", tag="now")
+    s.op("digest", dir="ref", name="m", tag="released")
+    s.op("note", conj="C12.stable", same=["released", "now"])
+    s.op("decode", dir="g", name="m", native=True)
+    return s
